@@ -37,10 +37,10 @@ TIERS = {
 # wildcard destinations: '*' among the parent segments, broadcast in order, partial on error
 STAR = {
     'quick': dict(Mutant='"none"', MaxSpine='2', LevelClasses='{"dict","list"}', LeafOpts='{"none","edict"}',
-                  SideOpts='{"none"}', Alpha='"small"', Alpha3='"none"', Profiles='{"star"}', Reuse='FALSE'),
+                  SideOpts='{"none","mixobj"}', Alpha='"small"', Alpha3='"none"', Profiles='{"star"}', Reuse='FALSE'),
     'thorough': dict(Mutant='"none"', MaxSpine='2', LevelClasses='{"dict","list","tuple","obj"}',
-                     LeafOpts='{"none","str","edict"}', SideOpts='{"none"}', Alpha='"small"', Alpha3='"none"',
-                     Profiles='{"star"}', Reuse='FALSE'),
+                     LeafOpts='{"none","edict"}', SideOpts='{"none","mixobj","mixdict","mixlist"}', Alpha='"small"',
+                     Alpha3='"none"', Profiles='{"star"}', Reuse='FALSE'),
 }
 # ONE Assign spec object evaluated on two targets in sequence and through a list spec: every ordered
 # pair of targets, so the prefix stops existing at segment i on the first and at segment j on the second
@@ -49,6 +49,14 @@ REUSE = {
                   SideOpts='{"shared"}', Alpha='"tiny"', Alpha3='"p"', Profiles='{"reuse"}', Reuse='TRUE'),
     'thorough': dict(Mutant='"none"', MaxSpine='2', LevelClasses='{"dict","obj"}', LeafOpts='{"none","edict"}',
                      SideOpts='{"shared"}', Alpha='"tiny"', Alpha3='"p"', Profiles='{"reuse"}', Reuse='TRUE'),
+}
+# literal container values (argument mode rebuilds them): self-referential and aliased lists / dicts, T leaves
+LITVAL = {
+    'quick': dict(Mutant='"none"', MaxSpine='1', LevelClasses='{"dict","list"}', LeafOpts='{"none","edict"}',
+                  SideOpts='{"shared"}', Alpha='"tiny"', Alpha3='"p"', Profiles='{"litval"}', Reuse='FALSE'),
+    'thorough': dict(Mutant='"none"', MaxSpine='2', LevelClasses='{"dict","list","tuple","obj"}',
+                     LeafOpts='{"none","edict"}', SideOpts='{"shared"}', Alpha='"tiny"', Alpha3='"p"',
+                     Profiles='{"litval"}', Reuse='FALSE'),
 }
 # second, deeper-alphabet universe of the thorough tier (shallower targets)
 THOROUGH_WIDE = dict(Mutant='"none"', MaxSpine='1', LevelClasses=_ALL,
@@ -66,6 +74,8 @@ MUTANTS = {'attach_first': ('NoEarlyWrite', 'AttachLast', 'Outcome'),
            # historic behaviours of glom (repaired: c7a278c, 39e101a); the law must reject them
            'tail_copies_value': ('Outcome', 'ReadBack'),
            'tail_value_lost': ('Outcome', 'ReadBack'),
+           # a list reached twice inside a literal value rebuilt as [] the second time
+           'alias_lost': dict(universe=None, laws=('Outcome', 'ReadBack')),
            # state kept on the spec object between evaluations
            'memo_split': dict(universe=None, laws=('SpecCarriesNothing', 'Outcome', 'NeverReplaced', 'FactoryLaw'))}
 NRANDOM = {'quick': 6000, 'thorough': 60000}
@@ -73,8 +83,9 @@ NRANDOM = {'quick': 6000, 'thorough': 60000}
 ASSUMPTIONS = [
     'container classes dict / list / tuple / frozenset / set / attribute objects; OrderedDict is excluded '
     '(its instances accept arbitrary attributes, which the abstract heap does not model)',
-    'values are scalars, Spec(path), T paths or the target itself; literal dict/list/tuple values are excluded '
-    '(argument mode rebuilds them by design, see test_assign_recursive)',
+    'values are scalars, Spec(path), T paths, the target itself, or literal graphs of exact dicts / lists with '
+    'aliasing, cycles and T leaves (argument mode stores a rebuilt container of the same type and shape; literal '
+    'tuples / sets, whose aliasing is not preserved, are excluded)',
     'the read-only property "r" is only addressed as the final segment; attribute names are not methods of builtins',
     'faults are injected with subclasses (raising __setitem__/__setattr__/__delitem__/__delattr__, read-only '
     'property, raising factory); at most one faulty cell per case',
@@ -97,6 +108,7 @@ def match_finding(f, info):
 
 
 MUTANTS['memo_split']['universe'] = {k: v for k, v in REUSE['quick'].items() if k != 'Mutant'}
+MUTANTS['alias_lost']['universe'] = {k: v for k, v in LITVAL['quick'].items() if k != 'Mutant'}
 DRIVER = lib.Driver(PROP, KIND, MC, TRACE,
                     need=['Choose', 'A_EvalVal', 'A_FetchParent', 'A_FactoryCall', 'A_BuildTail', 'A_Store'],
                     match=match_finding, match_rows=match_finding,
@@ -110,7 +122,8 @@ RULE = ('TLC enumerates every (target spine, destination path, value, missing fa
 
 def main(tier, seed):
     universes = [(tier, TIERS[tier]), (tier + '-star', STAR[tier], tier == 'thorough'),
-                 (tier + '-reuse', REUSE[tier], tier == 'thorough')]
+                 (tier + '-reuse', REUSE[tier], tier == 'thorough'),
+                 (tier + '-litval', LITVAL[tier], tier == 'thorough')]
     if tier == 'thorough':
         universes.append(('thorough-wide', THOROUGH_WIDE))
     return DRIVER.main(tier, seed, universes, NRANDOM[tier], ASSUMPTIONS, RULE)
